@@ -91,11 +91,13 @@ def _(self: SELF, token: binop_tok(CMP_OPS, "bool_expr")) -> bool:
 
 
 @contract(P + "bool_expr@bool_expr LAND bool_expr")
-def _(self: SELF, token: Obj(Tok, _order=Const(("bool_expr0", "op", "bool_expr1")), op=OneOf("&&", "||"), bool_expr0=bool, bool_expr1=bool)) -> bool:
-    returns((token.bool_expr0 and token.bool_expr1) if token.op == "&&" else (token.bool_expr0 or token.bool_expr1), label="logical")
+def _(self: SELF, token: Obj(Tok, _order=Const(("bool_expr0", "op", "bool_expr1")), op=OneOf("&&", "||"), bool_expr0=Union[bool, int], bool_expr1=Union[bool, int])) -> int:
+    # operands are C-like truth values: a boolean expression may be any integer constant expression (non-zero = true)
+    let(a=token.bool_expr0 != 0, b=token.bool_expr1 != 0)
+    ensures((result != 0) == ((a and b) if token.op == "&&" else (a or b)), label="logical-on-truth-values")
     pure()
-    sample_with(lambda rnd: {"self": _parser(), "token": Tok(("bool_expr0", "op", "bool_expr1"), bool_expr0=rnd.random() < .5, op=rnd.choice(["&&", "||"]),
-                                                           bool_expr1=rnd.random() < .5)})
+    sample_with(lambda rnd: {"self": _parser(), "token": Tok(("bool_expr0", "op", "bool_expr1"), bool_expr0=rnd.choice([False, True, 0, 1, 2, 4, 6]), op=rnd.choice(["&&", "||"]),
+                                                           bool_expr1=rnd.choice([False, True, 0, 1, 3]))})
 
 
 @contract(P + "bool_expr@LNOT bool_expr")
